@@ -33,6 +33,12 @@ var profiles = map[string]Profile{
 }
 
 func runHistory(ops []*Op) (Outcome, Outcome) {
+	if noImpl {
+		return Outcome{"skipped": true}, Outcome{"skipped": true}
+	}
+	if skipThis() {
+		return Outcome{"outs": []Outcome{fatalOutcome()}}, Outcome{"outs": []Outcome{fatalOutcome()}}
+	}
 	c1 := v1.NewClient()
 	c2 := v2.NewClient()
 	o1 := make([]Outcome, 0, len(ops))
